@@ -37,6 +37,7 @@ WHERES = {
 LONG_GROUPS = [
     ["file", "section"], ["type", "priority"], ["#", "file", "type"], ["file", "section", "type", "priority"],
     ["@", "#", "+", "%"], ["priority", "type", "file"],
+    ["section", "@"], ["section", "type"], ["section", "priority"], ["section", "file"], ["@", "section"],
 ]
 
 
